@@ -33,6 +33,46 @@ CLAIMED = {
              'gets the identifier, what else goes to stdout, which value is returned, and that identifier and exit code '
              'come from one ExitValue.',
         design='DESIGN.md section 5, C02'),
+    'C03': dict(
+        technique='typestate traces of the executor; path analysis of the processor/accessor; who-may-call (closed '
+                  'world) for execution entry points and process start; direct-effect analysis over resolved calls; '
+                  'error-discipline and first-error-wins fold shapes; phase-adapter path analysis; decision tables',
+        text='On every executor trace all symbol/pre-sandbox validation steps of all five phases and act parsing '
+             'precede the creation of the sandbox (including the resolution of its root directory) and every '
+             'executing step, and a failing validation ends with no sandbox; the processor reads, preprocesses, parses '
+             'and transforms the whole file before the executor is reached and access errors end before execution; '
+             'sandbox construction / execution entry points / process start primitives are referenced only from their '
+             'allowed callers; the symbol command reaches nothing that executes; ~500 validators, parsers and '
+             'symbol-usage getters reach no effect primitive through resolved calls; optional-error results are never '
+             'dropped in the validation layers; the four phase adapters validate before they execute; the '
+             'pre/post-sandbox step selection tables are as documented; symbol validation sees every usage.',
+        design='DESIGN.md section 5, C03',
+        note='Dynamic dispatch through the SDV/DDV/ADV layers is not followed by the effect analysis (stated limit).'),
+    'C04': dict(
+        technique='path analysis (incl. exceptional exits) of partial execution; executor trace model; who-may-call; '
+                  'escape analysis of os.environ over the whole tree with a fixture positive control; constant '
+                  'folding of the sandbox layout; argument-origin checks',
+        text='Every path through partial execution restores the current directory after the executor ran and removes '
+             'the sandbox exactly when --keep is off and the result carries one; every post-sandbox terminal carries '
+             'the sandbox; act/ is made current directly after construction; os.chdir, sandbox construction and the '
+             'user tmp directory are referenced only from their allowed places; no use of os.environ anywhere in the '
+             'source writes it or lets the live mapping escape; instruction environments are copies; the layout and '
+             'result file names fold to the documented ones; the keep flag reaches the executor from the reporter.',
+        design='DESIGN.md section 5, C04'),
+    'C19': dict(
+        technique='who-may-call over process start primitives; exception-path analysis of the start site and its '
+                  'wrapper; closed-world construction analysis of ProcessExecutionSettings; declared-type checks of '
+                  'the settings argument at every user',
+        text='Process start primitives occur only at the one site (plus the preprocessor, informational); that site '
+             'uses a primitive that kills the child on timeout with timeout=settings.timeout_in_seconds and converts '
+             'TimeoutExpired (and OSError/ValueError) to ProcessExecutionException, which its only caller converts to '
+             'HardErrorException; every construction of ProcessExecutionSettings in the source takes its timeout from a '
+             'live settings object and the timeout-dropping factories are unreferenced, so every value that can reach '
+             'the site carries the timeout in force; environments are rebuilt per instruction from the live settings; '
+             'the default folds to a positive number; only the timeout instruction changes it.',
+        design='DESIGN.md section 5, C19',
+        note='Trusted: CPython subprocess.call kills and reaps the child when the timeout expires. Not decided: '
+             'grandchildren of shell commands, wall-clock bounds.'),
 }
 
 NOT_APPLICABLE = {
